@@ -415,11 +415,13 @@ func (sr *sentRun) clientSettled() bool {
 	return true
 }
 
-// nextDiscoveryStep is the first step after `after` at which a node or sentinel received a SENTINEL or ROLE command.
+// nextDiscoveryStep is the first step after `after` at which a sentinel received a SENTINEL command from the client.
 func nextDiscoveryStep(log []*fakeredis.Exec, after int) int {
 	for _, ex := range log {
 		if ex.Conn >= 0 && ex.Step > after && len(ex.Argv) > 0 {
-			if n := strings.ToUpper(ex.Argv[0]); n == "SENTINEL" || n == "ROLE" {
+			// (SENTINEL only: with SendToReplicas the master and the replica target are verified by two goroutines at
+			// once, so a ROLE command may belong to the other one; the next sentinel query comes after both returned)
+			if n := strings.ToUpper(ex.Argv[0]); n == "SENTINEL" {
 				return ex.Step
 			}
 		}
@@ -1255,7 +1257,7 @@ func (sr *sentRun) judge() {
 			// Two witnesses that the client has finished with the answer: (1) nothing internal left to do at some step
 			// after it; (2) the discovery flow has moved on - the verification of a target, including the closing of a
 			// connection that answered the wrong role, is synchronous in the goroutine that asked ROLE, so once the client
-			// sends its next SENTINEL or ROLE command (to anyone) that verification has returned.
+			// sends its next SENTINEL command that verification has returned.
 			q := sr.settledAfter(last.delivered)
 			if q2 := nextDiscoveryStep(e.sim.W.Log, last.delivered); q2 >= 0 && (q < 0 || q2 < q) {
 				q = q2
